@@ -83,6 +83,7 @@ type World struct {
 	hid       int
 	Failed    string
 	last      Obs
+	serveG    string
 }
 
 func (w *World) logf(format string, a ...interface{}) {
@@ -408,13 +409,15 @@ func closedCh(ch <-chan struct{}) bool {
 
 // Obs is the structured observation at a quiescent point.
 type Obs struct {
-	Done       []string // "op=result" newly completed
-	Pending    []string
-	Log        []string // new handler events
-	Census     []string
-	A, B       director.Status
-	ConnClosed bool
-	Text       string
+	Done         []string // "op=result" newly completed
+	Pending      []string
+	Log          []string // new handler events
+	Census       []string
+	ClientCensus []string // library goroutines started on behalf of the client endpoint
+	ServerCensus []string
+	A, B         director.Status
+	ConnClosed   bool
+	Text         string
 }
 
 var Last Obs
@@ -441,6 +444,13 @@ func (w *World) observe() string {
 	w.logN = len(w.log)
 	w.mu.Unlock()
 	o.Census = w.D.Census(gs)
+	if w.serveG == "" {
+		w.serveG = w.D.OpGoroutine("serve")
+	}
+	o.ServerCensus = w.D.CensusBy(gs, w.serveG, true)
+	for _, c := range w.D.CensusBy(gs, w.serveG, false) {
+		o.ClientCensus = append(o.ClientCensus, c)
+	}
 	o.A, o.B = w.A.Status(), w.B.Status()
 	o.ConnClosed = closedCh(w.Conn.Closed())
 	st := func(s director.Status) string {
